@@ -6,7 +6,7 @@ import (
 	"strings"
 )
 
-const smtPreamble = `(declare-datatypes ((Path 0)) (((pnil) (pfld (pfp Path) (pfi Int)) (pidx (pip Path) (pii Int)) (pgh (pgp Path) (pgi Int)))))
+const smtPreamble = `(declare-datatypes ((Path 0)) (((pnil) (pfld (pfp Path) (pfi Int)) (pidx (pip Path) (pii Int)) (pgh (pgp Path) (pgi Int)) (pstr (pstrv String)))))
 (declare-datatypes ((Ref 0)) (((mkref (rid Int) (rpath Path)))))
 (define-fun orid ((r Ref)) Int (ite (< (rid r) 0) (- (- (rid r)) 1) (rid r)))
 `
@@ -427,3 +427,12 @@ func (d *Decls) Query(asms []Term, goal Term, getValues []Term) string {
 	}
 	return b.String()
 }
+
+
+// Boxing of string-kinded values in interfaces is canonical: the payload
+// reference is a function of the string, so that interface equality compares
+// boxed strings by value, as Go does.
+const strBoxRid = "9997"
+
+func boxString(s Term) Term   { return "(mkref " + strBoxRid + " (pstr " + s + "))" }
+func unboxString(p Term) Term { return "(pstrv (rpath " + p + "))" }
